@@ -23,10 +23,10 @@ def _pow2(n):
     return p
 
 
-def v2_file(data, P):
+def v2_file(data, P, block=BLOCK):
     """(pieces root, piece layer bytes) of one non-empty file, as BEP 52 prescribes."""
-    blocks = [sha256(data[i:i + BLOCK]) for i in range(0, len(data), BLOCK)]
-    bpp = P // BLOCK
+    blocks = [sha256(data[i:i + block]) for i in range(0, len(data), block)]
+    bpp = P // block
     if len(data) <= P:
         lv = blocks + [ZERO] * (_pow2(len(blocks)) - len(blocks))
         return _reduce(lv), b""
@@ -45,7 +45,7 @@ def v1_pieces(stream, P):
 
 
 def build(name, files, P, version, single=False, order=None, pads="none", trailing_pad=False,
-          extra_info=None, extra_top=None):
+          extra_info=None, extra_top=None, block=BLOCK):
     """files: list of (components, bytes).  version 1|2|3.
     order: permutation (list of indexes) for the v1 list of a v1 torrent (default: as given);
     pads: "none" | "bep47" (v1 with padding entries);  trailing_pad: pad after the last file.
@@ -64,7 +64,7 @@ def build(name, files, P, version, single=False, order=None, pads="none", traili
                 node = node.setdefault(c, {})
             leaf = {"length": len(data)}
             if data:
-                root, layer = v2_file(data, P)
+                root, layer = v2_file(data, P, block)
                 leaf["pieces root"] = root
                 if len(data) > P:
                     layers[root] = layer
